@@ -842,4 +842,97 @@ theorem decodeFields_encodeFields (num : Nat) (fs : List Bytes) (h : num + fs.le
       have h1 := decodeLenPrefixed_lenPrefixed b (encodeFields (num + 1) rest) (hl b (by simp))
       simp only [decodeFields, if_true, h1, hb2, Bool.false_eq_true, if_false, ih', Option.map_some]
 
+/-! ### structs with length-delimited and varint fields -/
+
+theorem fieldKey0_small (num : Nat) (h : num < 16) : fieldKey num 0 = [num * 8] := by
+  unfold fieldKey; simp only [Nat.add_zero]; exact uvarint_small (by omega)
+
+/-- the range a field must stay in for the round trip: fewer than 2^64 bytes, a varint below 2^64 -/
+def Fld.ok : Fld → Prop
+  | .bytes b => b.length < 2 ^ 64
+  | .uint n => n < 2 ^ 64
+
+/-- what `encodeStruct` starts with: nothing, or the key byte of a field at or after `num` -/
+theorem encodeStruct_head (num : Nat) (fs : List Fld) (h : num + fs.length ≤ 16) :
+    encodeStruct num fs = [] ∨ ∃ j t, num ≤ j ∧ j < 16 ∧ (encodeStruct num fs = (j * 8 + 2) :: t ∨ encodeStruct num fs = (j * 8) :: t) := by
+  induction fs generalizing num with
+  | nil => left; rfl
+  | cons f rest ih =>
+    simp only [List.length_cons] at h
+    unfold encodeStruct
+    have hrec := ih (num + 1) (by omega)
+    have lift : encodeStruct (num + 1) rest = [] ∨ ∃ j t, num ≤ j ∧ j < 16 ∧
+        (encodeStruct (num + 1) rest = (j * 8 + 2) :: t ∨ encodeStruct (num + 1) rest = (j * 8) :: t) := by
+      rcases hrec with e | ⟨j, t, h1, h2, e⟩
+      · left; exact e
+      · right; exact ⟨j, t, by omega, h2, e⟩
+    cases f with
+    | bytes b =>
+      by_cases hb : b.isEmpty = true
+      · simp only [encodeFld, hb, if_true, List.nil_append]; exact lift
+      · right
+        simp only [encodeFld, hb, Bool.false_eq_true, if_false]
+        rw [fieldKey_small num (by omega)]
+        exact ⟨num, lenPrefixed b ++ encodeStruct (num + 1) rest, Nat.le_refl _, by omega, Or.inl (by simp)⟩
+    | uint n =>
+      by_cases hn : n = 0
+      · simp only [encodeFld, hn, if_true, List.nil_append]; exact lift
+      · right
+        simp only [encodeFld, hn, if_false]
+        rw [fieldKey0_small num (by omega)]
+        exact ⟨num, uvarint n ++ encodeStruct (num + 1) rest, Nat.le_refl _, by omega, Or.inr (by simp)⟩
+
+theorem decodeStruct_encodeStruct (num : Nat) (fs : List Fld) (h : num + fs.length ≤ 16) (hok : ∀ f ∈ fs, Fld.ok f) :
+    decodeStruct num (fs.map Fld.kind) (encodeStruct num fs) = some fs := by
+  induction fs generalizing num with
+  | nil => simp [encodeStruct, decodeStruct]
+  | cons f rest ih =>
+    simp only [List.length_cons] at h
+    have ih' := ih (num + 1) (by omega) (fun x hx => hok x (by simp [hx]))
+    have hf := hok f (by simp)
+    -- skipping an omitted field: the next byte, if any, is the key of a later field
+    have skipB : decodeStruct num (true :: rest.map Fld.kind) (encodeStruct (num + 1) rest) = some (Fld.bytes [] :: rest) := by
+      rcases encodeStruct_head (num + 1) rest (by omega) with e0 | ⟨j, t, h1, h2, e1 | e1⟩
+      · rw [e0] at ih' ⊢; simp only [decodeStruct, ih', Option.map_some]
+      · rw [e1] at ih' ⊢
+        have hne : ¬ (j * 8 + 2 = num * 8 + 2) := by omega
+        simp only [decodeStruct, hne, if_false, ih', Option.map_some]
+      · rw [e1] at ih' ⊢
+        have hne : ¬ (j * 8 = num * 8 + 2) := by omega
+        simp only [decodeStruct, hne, if_false, ih', Option.map_some]
+    have skipU : decodeStruct num (false :: rest.map Fld.kind) (encodeStruct (num + 1) rest) = some (Fld.uint 0 :: rest) := by
+      rcases encodeStruct_head (num + 1) rest (by omega) with e0 | ⟨j, t, h1, h2, e1 | e1⟩
+      · rw [e0] at ih' ⊢; simp only [decodeStruct, ih', Option.map_some]
+      · rw [e1] at ih' ⊢
+        have hne : ¬ (j * 8 + 2 = num * 8) := by omega
+        simp only [decodeStruct, hne, if_false, ih', Option.map_some]
+      · rw [e1] at ih' ⊢
+        have hne : ¬ (j * 8 = num * 8) := by omega
+        simp only [decodeStruct, hne, if_false, ih', Option.map_some]
+    cases f with
+    | bytes b =>
+      simp only [List.map_cons, Fld.kind]
+      by_cases hb : b.isEmpty = true
+      · have hb' : b = [] := List.isEmpty_iff.1 hb
+        subst hb'
+        have e : encodeStruct num (Fld.bytes [] :: rest) = encodeStruct (num + 1) rest := by simp [encodeStruct, encodeFld]
+        rw [e]; exact skipB
+      · have hb2 : b.isEmpty = false := by simpa using hb
+        have e : encodeStruct num (Fld.bytes b :: rest) = (num * 8 + 2) :: (lenPrefixed b ++ encodeStruct (num + 1) rest) := by
+          simp [encodeStruct, encodeFld, hb2, fieldKey_small num (by omega)]
+        rw [e]
+        have h1 := decodeLenPrefixed_lenPrefixed b (encodeStruct (num + 1) rest) hf
+        simp only [decodeStruct, if_true, h1, hb2, Bool.false_eq_true, if_false, ih', Option.map_some]
+    | uint n =>
+      simp only [List.map_cons, Fld.kind]
+      by_cases hn : n = 0
+      · subst hn
+        have e : encodeStruct num (Fld.uint 0 :: rest) = encodeStruct (num + 1) rest := by simp [encodeStruct, encodeFld]
+        rw [e]; exact skipU
+      · have e : encodeStruct num (Fld.uint n :: rest) = (num * 8) :: (uvarint n ++ encodeStruct (num + 1) rest) := by
+          simp [encodeStruct, encodeFld, hn, fieldKey0_small num (by omega)]
+        rw [e]
+        have h1 := decodeUvarint_uvarint n hf (encodeStruct (num + 1) rest)
+        simp only [decodeStruct, if_true, h1, hn, if_false, ih', Option.map_some]
+
 end Posmint.Codec
